@@ -1,19 +1,601 @@
 package exec
 
 import (
+	"bytes"
+	"encoding/json"
+	"flag"
+	"fmt"
+	"os"
+	osexec "os/exec"
+	"path/filepath"
 	"regexp"
+	"sort"
+	"strconv"
+	"strings"
+	"time"
 )
 
 var pkgRe = regexp.MustCompile(`(?m)^package\s+(\w+)`)
 
 // PackageNameOf extracts the package name from the first overlay file.
 func PackageNameOf(ov map[string][]byte) string {
-	for _, b := range ov {
-		if m := pkgRe.FindSubmatch(b); m != nil {
+	keys := make([]string, 0, len(ov))
+	for k := range ov {
+		keys = append(keys, k)
+	}
+	sort.Strings(keys)
+	for _, k := range keys {
+		if m := pkgRe.FindSubmatch(ov[k]); m != nil {
 			return string(m[1])
 		}
 	}
 	return "main"
 }
 
-func CheckMain(args []string) int { return 2 }
+// ---------------------------------------------------------------------------
+// check specification
+
+type TierCfg struct {
+	Params   map[string]int `json:"params"`
+	Unwind   int            `json:"unwind"`
+	MapOrder *int           `json:"map_order"`
+	MaxPaths int            `json:"max_paths"`
+	Skip     bool           `json:"skip"`
+	MaxLen   int            `json:"max_len"`
+}
+
+type EntrySpec struct {
+	EntryCfg
+	Tiers map[string]*TierCfg `json:"tiers"`
+}
+
+type UnitSpec struct {
+	Package string       `json:"package"`
+	Dir     string       `json:"dir"`
+	Harness string       `json:"harness"`
+	Entries []*EntrySpec `json:"entries"`
+}
+
+type CheckSpec struct {
+	ID          string      `json:"id"`
+	Units       []*UnitSpec `json:"units"`
+	Assumptions []string    `json:"assumptions"`
+	Outside     []string    `json:"outside_the_claim"`
+	BoundsText  map[string]string `json:"bounds"`
+}
+
+type KnownFinding struct {
+	Property string            `json:"property"`
+	Entry    string            `json:"entry"`
+	Label    string            `json:"label"`
+	When     map[string]string `json:"when"`
+	What     string            `json:"what"`
+}
+
+type KnownFile struct {
+	Known []KnownFinding `json:"known"`
+	Fixed []string       `json:"fixed"`
+}
+
+func loadKnown(root string) *KnownFile {
+	kf := &KnownFile{}
+	b, err := os.ReadFile(filepath.Join(root, "known_findings.json"))
+	if err != nil {
+		return kf
+	}
+	json.Unmarshal(b, kf)
+	return kf
+}
+
+func (k *KnownFinding) matches(prop string, v *Violation) bool {
+	if k.Property != prop || k.Entry != v.Entry || k.Label != v.Label {
+		return false
+	}
+	notes := map[string]string{}
+	for _, n := range v.Notes {
+		if i := strings.Index(n, "="); i > 0 {
+			notes[n[:i]] = n[i+1:]
+		}
+	}
+	for tag, want := range k.When {
+		if notes[tag] != want {
+			return false
+		}
+	}
+	return true
+}
+
+// ---------------------------------------------------------------------------
+
+func CheckMain(args []string) int {
+	fs := flag.NewFlagSet("check", flag.ExitOnError)
+	tier := fs.String("tier", "", "quick|thorough")
+	root := fs.String("root", "/verif", "")
+	repo := fs.String("repo", "/repo", "")
+	only := fs.String("entry", "", "run only this entry (development)")
+	workers := fs.Int("workers", 16, "")
+	verbose := fs.Bool("v", false, "")
+	replayPath := fs.String("replay", "", "replay a counterexample file natively")
+	noReplay := fs.Bool("no-replay", false, "development: skip native replay")
+	var id string
+	if len(args) > 0 && !strings.HasPrefix(args[0], "-") {
+		id = args[0]
+		args = args[1:]
+	}
+	fs.Parse(args)
+	if id == "" {
+		fmt.Fprintln(os.Stderr, "usage: gosym check <ID> --tier quick|thorough")
+		return 2
+	}
+	if *tier == "" {
+		*tier = os.Getenv("VERIF_TIER")
+	}
+	if *tier == "" {
+		*tier = "quick"
+	}
+	seed := 0
+	if s := os.Getenv("VERIF_SEED"); s != "" {
+		seed, _ = strconv.Atoi(s)
+	}
+	b, err := os.ReadFile(filepath.Join(*root, "checks", id+".json"))
+	if err != nil {
+		fmt.Fprintln(os.Stderr, err)
+		return 2
+	}
+	spec := &CheckSpec{}
+	dec := json.NewDecoder(bytes.NewReader(b))
+	dec.DisallowUnknownFields()
+	if err := dec.Decode(spec); err != nil {
+		fmt.Fprintln(os.Stderr, "spec:", err)
+		return 2
+	}
+	if *replayPath != "" {
+		return replayOnly(*root, *repo, spec, *replayPath)
+	}
+	return runCheck(*root, *repo, spec, *tier, seed, *only, *workers, *verbose, *noReplay)
+}
+
+type unitRun struct {
+	unit    *UnitSpec
+	results []*EntryResult
+	load    time.Duration
+}
+
+func entryCfgFor(es *EntrySpec, tier string) (*EntryCfg, bool) {
+	c := es.EntryCfg // copy
+	c.Params = map[string]int{}
+	for k, v := range es.EntryCfg.Params {
+		c.Params[k] = v
+	}
+	if t := es.Tiers[tier]; t != nil {
+		if t.Skip {
+			return nil, false
+		}
+		for k, v := range t.Params {
+			c.Params[k] = v
+		}
+		if t.Unwind > 0 {
+			c.Unwind = t.Unwind
+		}
+		if t.MapOrder != nil {
+			c.MapOrder = *t.MapOrder
+		}
+		if t.MaxPaths > 0 {
+			c.MaxPaths = t.MaxPaths
+		}
+		if t.MaxLen > 0 {
+			c.MaxLen = t.MaxLen
+		}
+	}
+	return &c, true
+}
+
+func runCheck(root, repo string, spec *CheckSpec, tier string, seed int, only string, workers int, verbose, noReplay bool) int {
+	t0 := time.Now()
+	known := loadKnown(root)
+	outDir := filepath.Join(root, "out", spec.ID)
+	os.MkdirAll(outDir, 0o755)
+	old, _ := filepath.Glob(filepath.Join(outDir, "cex-*.json"))
+	for _, f := range old {
+		os.Remove(f)
+	}
+	budget := 25 * time.Minute
+	if tier == "thorough" {
+		budget = 3 * time.Hour
+	}
+	deadline := t0.Add(budget)
+
+	var runs []*unitRun
+	var inconclusive []string
+	for _, u := range spec.Units {
+		hdir := filepath.Join(root, u.Harness)
+		ov, err := HarnessOverlay(repo, u.Dir, hdir, true)
+		if err != nil {
+			fmt.Fprintln(os.Stderr, err)
+			return 2
+		}
+		pkgName := PackageNameOf(ov)
+		ov[filepath.Join(repo, u.Dir, "zz_vrf_intrinsics.go")] = SymIntrinsics(pkgName)
+		eng, err := Load(repo, u.Package, ov)
+		if err != nil {
+			fmt.Printf("INCONCLUSIVE property=%s cannot load %s with the harness: %v\n", spec.ID, u.Package, err)
+			return 2
+		}
+		eng.Workers = workers
+		eng.Verbose = verbose
+		eng.Portfolio = true
+		if tier == "thorough" {
+			eng.TimeoutMS = 60000
+			eng.CrossEach = 1
+		}
+		ur := &unitRun{unit: u, load: eng.LoadTime}
+		for _, es := range u.Entries {
+			if only != "" && es.Func != only {
+				continue
+			}
+			cfg, ok := entryCfgFor(es, tier)
+			if !ok {
+				continue
+			}
+			res, err := eng.RunEntry(cfg, deadline)
+			if err != nil {
+				fmt.Printf("INCONCLUSIVE property=%s %v\n", spec.ID, err)
+				return 2
+			}
+			ur.results = append(ur.results, res)
+			for _, s := range res.Inconclusive {
+				inconclusive = append(inconclusive, cfg.Func+": "+s)
+			}
+			if verbose {
+				fmt.Fprintf(os.Stderr, "[%s] paths=%d ends=%v queries=%d wall=%v viol=%d\n", cfg.Func, res.Paths, res.Ends, res.Stats.Queries, res.Wall, len(res.Violations))
+			}
+		}
+		runs = append(runs, ur)
+	}
+
+	// ---- violations: known-finding match, native replay
+	exit := 0
+	nViol := 0
+	knownHit := map[string]int{}
+	var knownLines []string
+	cexN := 0
+	replayed := 0
+	for _, ur := range runs {
+		var fresh []*Violation
+		for _, res := range ur.results {
+			for _, v := range res.Violations {
+				matched := false
+				for i := range known.Known {
+					k := &known.Known[i]
+					if k.matches(spec.ID, v) {
+						key := k.Entry + "|" + k.Label + "|" + k.What
+						if knownHit[key] == 0 {
+							knownLines = append(knownLines, fmt.Sprintf("KNOWN-FINDING: property=%s %s", spec.ID, k.What))
+						}
+						knownHit[key]++
+						matched = true
+						break
+					}
+				}
+				if !matched {
+					fresh = append(fresh, v)
+				}
+			}
+		}
+		if len(fresh) == 0 {
+			continue
+		}
+		// keep at most 3 per label for replay
+		perLabel := map[string]int{}
+		var todo []*Violation
+		for _, v := range fresh {
+			perLabel[v.Label]++
+			if perLabel[v.Label] <= 3 {
+				todo = append(todo, v)
+			}
+		}
+		var paths []string
+		for _, v := range todo {
+			cexN++
+			p := filepath.Join(outDir, fmt.Sprintf("cex-%d.json", cexN))
+			b, _ := json.MarshalIndent(v, "", " ")
+			os.WriteFile(p, b, 0o644)
+			paths = append(paths, p)
+		}
+		if noReplay {
+			for i, v := range todo {
+				fmt.Printf("UNREPLAYED-COUNTEREXAMPLE property=%s label=%s file=%s\n", spec.ID, v.Label, paths[i])
+			}
+			exit = 2
+			continue
+		}
+		outs, err := replayNative(root, repo, ur.unit, paths)
+		if err != nil {
+			fmt.Printf("INCONCLUSIVE property=%s native replay could not be built: %v\n", spec.ID, err)
+			exit = 2
+			continue
+		}
+		reproducedLabel := map[string]bool{}
+		for i, v := range todo {
+			replayed++
+			if strings.Contains(outs[i], "VRF-REPRODUCED "+v.Label) {
+				if !reproducedLabel[v.Label] {
+					fmt.Printf("VIOLATION property=%s replay=%s\n", spec.ID, paths[i])
+					fmt.Printf("  label=%s entry=%s at %s\n  model: %s\n  notes: %s\n", v.Label, v.Entry, v.Where, fmtModel(v.Model), strings.Join(v.Notes, " "))
+				}
+				reproducedLabel[v.Label] = true
+				nViol++
+				exit = 1
+			}
+		}
+		for i, v := range todo {
+			if !reproducedLabel[v.Label] {
+				fmt.Printf("ENCODING-MISMATCH property=%s label=%s: counterexample %s did not reproduce natively\n%s\n", spec.ID, v.Label, paths[i], tail(outs[i], 15))
+				if exit == 0 {
+					exit = 2
+				}
+				reproducedLabel[v.Label] = true
+			}
+		}
+	}
+	for _, l := range knownLines {
+		fmt.Println(l)
+	}
+	if len(inconclusive) > 0 {
+		for _, s := range inconclusive {
+			fmt.Printf("INCONCLUSIVE property=%s %s\n", spec.ID, s)
+		}
+		if exit == 0 {
+			exit = 2
+		}
+	}
+	writeEvidence(root, spec, tier, seed, runs, nViol, knownHit, inconclusive, replayed, time.Since(t0))
+	if exit == 0 {
+		fmt.Printf("OK property=%s tier=%s wall=%.1fs\n", spec.ID, tier, time.Since(t0).Seconds())
+	}
+	return exit
+}
+
+func fmtModel(mv []ModelVal) string {
+	var p []string
+	for _, v := range mv {
+		p = append(p, v.Tag+"="+v.Val)
+	}
+	return strings.Join(p, " ")
+}
+
+func tail(s string, n int) string {
+	lines := strings.Split(strings.TrimSpace(s), "\n")
+	if len(lines) > n {
+		lines = lines[len(lines)-n:]
+	}
+	return strings.Join(lines, "\n")
+}
+
+// ---------------------------------------------------------------------------
+// native replay
+
+const qtlsUnsafe = "/root/go/pkg/mod/github.com/marten-seemann/qtls-go1-17@v0.1.0-beta.1.2/unsafe.go"
+
+func replayNative(root, repo string, u *UnitSpec, cexPaths []string) ([]string, error) {
+	tmp, err := os.MkdirTemp("", "vrfreplay")
+	if err != nil {
+		return nil, err
+	}
+	defer os.RemoveAll(tmp)
+	hdir := filepath.Join(root, u.Harness)
+	ov, err := HarnessOverlay(repo, u.Dir, hdir, false)
+	if err != nil {
+		return nil, err
+	}
+	pkgName := PackageNameOf(ov)
+	ov[filepath.Join(repo, u.Dir, "zz_vrf_intrinsics.go")] = ReplayIntrinsics(pkgName)
+	ov[filepath.Join(repo, u.Dir, "zz_vrf_replay_test.go")] = ReplayTest(pkgName)
+	if _, err := os.Stat(qtlsFile); err == nil {
+		ov[qtlsFile] = []byte("// +build go1.18\n\npackage qtls\n")
+	}
+	if b, err := os.ReadFile(qtlsUnsafe); err == nil {
+		ov[qtlsUnsafe] = bytes.Replace(b, []byte("func init()"), []byte("func vrfDisabledInit()"), 1)
+	}
+	repl := map[string]string{}
+	i := 0
+	for virt, content := range ov {
+		i++
+		real := filepath.Join(tmp, fmt.Sprintf("f%d_%s", i, filepath.Base(virt)))
+		if err := os.WriteFile(real, content, 0o644); err != nil {
+			return nil, err
+		}
+		repl[virt] = real
+	}
+	ovJSON, _ := json.Marshal(map[string]interface{}{"Replace": repl})
+	ovPath := filepath.Join(tmp, "overlay.json")
+	os.WriteFile(ovPath, ovJSON, 0o644)
+	bin := filepath.Join(tmp, "replay.test")
+	env := append(os.Environ(), "GOFLAGS=-mod=mod", "GOPROXY=off", "GOSUMDB=off", "GOTOOLCHAIN=local")
+	build := osexec.Command("go", "test", "-vet=off", "-c", "-o", bin, "-overlay", ovPath, u.Package)
+	build.Dir = repo
+	build.Env = env
+	if out, err := build.CombinedOutput(); err != nil {
+		return nil, fmt.Errorf("go test -c: %v\n%s", err, tail(string(out), 30))
+	}
+	var outs []string
+	for _, p := range cexPaths {
+		var best string
+		for attempt := 0; attempt < 20; attempt++ {
+			c := osexec.Command(bin, "-test.run", "^TestVrfReplay$", "-test.count=1", "-test.timeout=120s")
+			c.Dir = filepath.Join(repo, u.Dir)
+			c.Env = append(env, "VRF_CEX="+p)
+			out, _ := c.CombinedOutput()
+			best = string(out)
+			if strings.Contains(best, "VRF-REPRODUCED") {
+				break
+			}
+			// retry only helps when map iteration order matters
+			if attempt >= 4 && !strings.Contains(best, "VRF-NOT-REPRODUCED") {
+				break
+			}
+		}
+		outs = append(outs, best)
+	}
+	return outs, nil
+}
+
+func replayOnly(root, repo string, spec *CheckSpec, path string) int {
+	b, err := os.ReadFile(path)
+	if err != nil {
+		fmt.Fprintln(os.Stderr, err)
+		return 2
+	}
+	var v Violation
+	if err := json.Unmarshal(b, &v); err != nil {
+		fmt.Fprintln(os.Stderr, err)
+		return 2
+	}
+	for _, u := range spec.Units {
+		for _, es := range u.Entries {
+			if es.Func == v.Entry {
+				outs, err := replayNative(root, repo, u, []string{path})
+				if err != nil {
+					fmt.Fprintln(os.Stderr, err)
+					return 2
+				}
+				fmt.Println(outs[0])
+				if strings.Contains(outs[0], "VRF-REPRODUCED "+v.Label) {
+					fmt.Printf("VIOLATION property=%s replay=%s\n", spec.ID, path)
+					return 1
+				}
+				return 0
+			}
+		}
+	}
+	fmt.Fprintln(os.Stderr, "entry not found in spec:", v.Entry)
+	return 2
+}
+
+// ---------------------------------------------------------------------------
+// evidence
+
+func writeEvidence(root string, spec *CheckSpec, tier string, seed int, runs []*unitRun, nViol int, knownHit map[string]int, inconclusive []string, replayed int, wall time.Duration) {
+	type entryEv struct {
+		Entry        string                    `json:"entry"`
+		Package      string                    `json:"package"`
+		Paths        int                       `json:"paths_explored"`
+		Nontrivial   int                       `json:"paths_with_symbolic_assertion"`
+		Ends         map[string]int            `json:"path_ends"`
+		Asserts      map[string]map[string]int `json:"assertion_verdicts"`
+		Reached      map[string]int            `json:"labels_reached"`
+		Queries      int                       `json:"solver_queries"`
+		ByVerdict    map[string]int            `json:"queries_by_verdict"`
+		Fallback     map[string]int            `json:"decided_by_fallback_backend,omitempty"`
+		CrossChecked int                       `json:"cross_solver_checked"`
+		CrossDiffs   int                       `json:"cross_solver_disagreements"`
+		SolverTimeS  float64                   `json:"solver_time_s"`
+		MaxQueryS    float64                   `json:"max_query_s"`
+		WallS        float64                   `json:"wall_s"`
+		Unwind       int                       `json:"unwind_bound"`
+		UnwindSeen   int                       `json:"unwind_max_seen"`
+		MapOrder     int                       `json:"map_order_bound"`
+		Params       map[string]int            `json:"params"`
+		Exhaustive   bool                      `json:"worklist_drained"`
+		Bounds       string                    `json:"bounds,omitempty"`
+	}
+	var entries []entryEv
+	funcs := map[string]bool{}
+	stubs := map[string]bool{}
+	notes := map[string]bool{}
+	var samples []interface{}
+	totalQ, totalNT, totalPaths := 0, 0, 0
+	var solverT float64
+	exhaustive := true
+	for _, ur := range runs {
+		for _, r := range ur.results {
+			entries = append(entries, entryEv{Entry: r.Cfg.Func, Package: ur.unit.Package, Paths: r.Paths, Nontrivial: r.Nontrivial, Ends: r.Ends,
+				Asserts: r.Asserts, Reached: r.Reached, Queries: r.Stats.Queries,
+				ByVerdict: map[string]int{"sat": r.Stats.Sat, "unsat": r.Stats.Unsat, "unknown": r.Stats.Unknown, "error": r.Stats.Errors},
+				Fallback:  r.Stats.Fallback, CrossChecked: r.Stats.CrossChecks, CrossDiffs: r.Stats.CrossDiffs,
+				SolverTimeS: r.Stats.SolverTime.Seconds(), MaxQueryS: r.Stats.MaxQuery.Seconds(), WallS: r.Wall.Seconds(),
+				Unwind: r.Cfg.Unwind, UnwindSeen: r.MaxUnwind, MapOrder: r.Cfg.MapOrder, Params: r.Cfg.Params, Exhaustive: r.Exhaustive, Bounds: r.Cfg.Bounds})
+			totalQ += r.Stats.Queries
+			totalNT += r.Nontrivial
+			totalPaths += r.Paths
+			solverT += r.Stats.SolverTime.Seconds()
+			if !r.Exhaustive {
+				exhaustive = false
+			}
+			for f := range r.Funcs {
+				funcs[f] = true
+			}
+			for f := range r.Stubs {
+				stubs[f] = true
+			}
+			for n := range r.Notes {
+				notes[n] = true
+			}
+			for i, s := range r.Samples {
+				if i < 3 {
+					samples = append(samples, map[string]interface{}{"entry": r.Cfg.Func, "decisions": s.Decisions, "end": s.End, "assertions": s.Asserts, "a_satisfying_input": s.Inputs, "events": s.Events})
+				}
+			}
+		}
+	}
+	keys := func(m map[string]bool, filter func(string) bool) []string {
+		var out []string
+		for k := range m {
+			if filter == nil || filter(k) {
+				out = append(out, k)
+			}
+		}
+		sort.Strings(out)
+		return out
+	}
+	repoFuncs := keys(funcs, func(s string) bool {
+		return strings.Contains(s, "ipfs-cluster") && !strings.Contains(s, "vrf") && !strings.Contains(s, "Vrf")
+	})
+	depFuncs := keys(funcs, func(s string) bool { return !strings.Contains(s, "ipfs-cluster") })
+	stubList := keys(stubs, func(s string) bool { return !strings.Contains(s, ".vrf_") })
+	if len(samples) == 0 {
+		samples = append(samples, "no feasible path reached an assertion")
+	}
+	assumptions := append([]string{}, spec.Assumptions...)
+	for _, n := range keys(notes, nil) {
+		assumptions = append(assumptions, "engine note: "+n)
+	}
+	for _, o := range spec.Outside {
+		assumptions = append(assumptions, "outside the claim: "+o)
+	}
+	var kh []string
+	for k, n := range knownHit {
+		kh = append(kh, fmt.Sprintf("%s (x%d)", k, n))
+	}
+	sort.Strings(kh)
+	ev := map[string]interface{}{
+		"property_id": spec.ID,
+		"tier":        tier,
+		"seed":        seed,
+		"level":       "model_checking",
+		"coverage": map[string]interface{}{
+			"evaluations":         totalQ,
+			"distinct_nontrivial": totalNT,
+			"rule": "evaluations = SMT queries discharged (feasibility + assertion queries). A case is one feasible path of the real code's SSA under the harness (a distinct vector of branch/choice decisions, so paths are distinct by construction); it is non-trivial when at least one of its assertions mentions a symbolic input and was decided by the solver (unsat = holds for every value on that path) rather than folding to a constant.",
+			"samples":                         samples,
+			"exhaustive":                      exhaustive && len(inconclusive) == 0,
+			"paths_explored":                  totalPaths,
+			"entries":                         entries,
+			"functions_encoded_from_repo":     repoFuncs,
+			"dependency_functions_executed_from_ssa": len(depFuncs),
+			"stubs_and_models_used":           stubList,
+			"bounds":                          spec.BoundsText[tier],
+			"solver_time_s":                   solverT,
+			"solvers":                         "z3 4.8.12 (incremental, primary); fallback portfolio on unknown: cvc5 1.0 --solve-bv-as-int=sum, z3 5.1.0, cvc5 --strings-exp; thorough tier re-discharges every assertion query on the portfolio",
+			"counterexamples_replayed_natively": replayed,
+			"known_findings_hit":              kh,
+			"inconclusive":                    inconclusive,
+		},
+		"assumptions": assumptions,
+		"wall_s":      wall.Seconds(),
+		"violations":  nViol,
+	}
+	os.MkdirAll(filepath.Join(root, "evidence"), 0o755)
+	b, _ := json.MarshalIndent(ev, "", " ")
+	os.WriteFile(filepath.Join(root, "evidence", spec.ID+".json"), b, 0o644)
+}
